@@ -1011,10 +1011,10 @@ class Config:  # pylint: disable=too-many-instance-attributes
         """
         if not self.__keyfile:
             if self._parent:
-                # This will bubble up to the root config
-                self.__keyfile = self._parent._keyfile
-            else:
-                self.__keyfile = KeyFile(Config.DEFAULT_CINCOKEY_FILEPATH)
+                # This will bubble up to the root config. The ancestor's key file is not cached
+                # here: the ancestor may be given another key file later.
+                return self._parent._keyfile
+            self.__keyfile = KeyFile(Config.DEFAULT_CINCOKEY_FILEPATH)
         return self.__keyfile
 
     def _get_field(self, key: str) -> Optional[BaseField]:
